@@ -2,10 +2,12 @@
 """Development tool: run the registered quick checks against the seeded property-breaking changes kept
 under /verif/seeded/<name>/ (patch.diff, demo.py, meta.json).
 
-For every selected change: apply it to /repo (git apply), run the quick check of the property it breaks,
-undo it (git checkout -- .) straight afterwards, and report whether the check went red.
+For every selected change: a fresh scratch worktree of /repo HEAD (outside /repo and /verif), the patch
+applied there, the quick check of the property it breaks run with VF_REPO pointing at it, the worktree
+removed again.  (Equivalent to `git -C /repo apply` + check + `git -C /repo checkout -- .`, but /repo is
+never touched, so other work can go on; use --in-place for exactly that procedure.)
 
-usage: tools/seeded.py [name ...] [--scale F] [--demo] [--all-checks]
+usage: tools/seeded.py [name ...] [--scale F] [--demo] [--in-place]
   --demo        also run demo.py against the patched and the clean tree (expects exit 1 / exit 0)
 """
 import json
@@ -18,6 +20,7 @@ REPO = "/repo"
 
 
 def sh(*a, **kw):
+    kw.setdefault("env", dict(os.environ, VF_NO_EVIDENCE="1"))  # evidence files describe the clean tree only
     return subprocess.run(a, capture_output=True, text=True, **kw)
 
 
@@ -27,51 +30,56 @@ def main():
     if "--scale" in sys.argv:
         scale = sys.argv[sys.argv.index("--scale") + 1]
         args = [a for a in args if a != scale]
+    in_place = "--in-place" in sys.argv
     root = os.path.join(HERE, "seeded")
     names = sorted(d for d in os.listdir(root) if os.path.isdir(os.path.join(root, d)))
     if args:
         names = [n for n in names if n in args or any(n.startswith(a) for a in args)]
-    if sh("git", "-C", REPO, "status", "--porcelain", "--untracked-files=no").stdout.strip():
+    if in_place and sh("git", "-C", REPO, "status", "--porcelain", "--untracked-files=no").stdout.strip():
         print("refusing: /repo has uncommitted changes")
         return 2
-    results = []
     for name in names:
         d = os.path.join(root, name)
         meta = json.load(open(os.path.join(d, "meta.json")))
         pid = meta["property"]
         patch = os.path.join(d, "patch.diff")
-        r = sh("git", "-C", REPO, "apply", "--whitespace=nowarn", patch)
-        if r.returncode:
-            results.append((name, pid, "PATCH-DOES-NOT-APPLY " + r.stderr[:200]))
-            print(*results[-1], flush=True)
-            continue
+        tree = REPO if in_place else f"/tmp/wt_seedrun_{name}_{os.getpid()}"
+        if not in_place:
+            r = sh("git", "-C", REPO, "worktree", "add", "-q", "--detach", tree, "HEAD")
+            if r.returncode:
+                print(name, pid, "WORKTREE-FAILED", r.stderr[:200])
+                continue
+        pids = [pid] + list(meta.get("also_check", []))
         try:
+            r = sh("git", "-C", tree, "apply", "--whitespace=nowarn", patch)
+            if r.returncode:
+                print(name, pid, "PATCH-DOES-NOT-APPLY", r.stderr[:200], flush=True)
+                continue
             demo = ""
             if "--demo" in sys.argv:
-                r1 = sh("/venv/bin/python", os.path.join(d, "demo.py"), REPO)
-                demo = f" demo(patched)={r1.returncode}"
-            pids = [pid] + [p for p in meta.get("also_check", [])]
+                demo = f" demo(patched)={sh('/venv/bin/python', os.path.join(d, 'demo.py'), tree).returncode}"
             verdicts = []
+            env = dict(os.environ, VF_NO_EVIDENCE="1", VF_REPO=tree)
             for p in pids:
-                r = sh(os.path.join(HERE, "check"), p, "quick", "--scale", scale, "--no-shrink")
+                r = sh(os.path.join(HERE, "check"), p, "quick", "--scale", scale, "--no-shrink", env=env)
                 buckets = sorted({l.split(" ")[0][7:] for l in r.stdout.splitlines() if l.startswith("bucket=")})
                 verdict = {0: "MISSED", 1: "detected", 2: "HARNESS-ERROR"}.get(r.returncode, str(r.returncode))
                 verdicts.append(f"{p}:{verdict} [{', '.join(buckets)[:260]}]")
                 if r.returncode == 2:
                     print(r.stderr[-800:])
         finally:
-            sh("git", "-C", REPO, "checkout", "--", ".")
+            if in_place:
+                sh("git", "-C", REPO, "checkout", "--", ".")
+            else:
+                sh("git", "-C", REPO, "worktree", "remove", "--force", tree)
             for p in pids:
                 rd = os.path.join(HERE, "replays", p)
                 for f in os.listdir(rd) if os.path.isdir(rd) else []:
                     if f.startswith("new_"):
                         os.unlink(os.path.join(rd, f))
         if "--demo" in sys.argv:
-            r0 = sh("/venv/bin/python", os.path.join(d, "demo.py"), REPO)
-            demo += f" demo(clean)={r0.returncode}"
-        results.append((name, pid, "; ".join(verdicts) + demo))
-        print(*results[-1], flush=True)
-    assert not sh("git", "-C", REPO, "status", "--porcelain", "--untracked-files=no").stdout.strip()
+            demo += f" demo(clean)={sh('/venv/bin/python', os.path.join(d, 'demo.py'), REPO).returncode}"
+        print(name, pid, "; ".join(verdicts) + demo, flush=True)
     return 0
 
 
